@@ -35,6 +35,7 @@ import (
 	"github.com/dolthub/dolt/go/libraries/doltcore/schema/typeinfo"
 	"github.com/dolthub/dolt/go/libraries/doltcore/sqle/expranalysis"
 	"github.com/dolthub/dolt/go/libraries/doltcore/sqle/index"
+	"github.com/dolthub/dolt/go/libraries/utils/verifhook"
 	"github.com/dolthub/dolt/go/store/hash"
 	"github.com/dolthub/dolt/go/store/pool"
 	"github.com/dolthub/dolt/go/store/prolly"
@@ -265,6 +266,7 @@ func computeProllyTreePatches(
 		!needsSchemaMigration &&
 		!diffInfo.RightSchemaChange &&
 		!diffInfo.LeftSchemaChange
+	verifhook.Emit("merge.path", tm.name.Name, canFastMergeProllyTrees)
 	if canFastMergeProllyTrees {
 		lDiff, err := tree.PatchGeneratorFromRoots(ctx, ns, ns, ancRows.Node(), leftRows.Node(), leftRows.Tuples().Order)
 		if err != nil {
